@@ -214,9 +214,10 @@ def snippet(z, /, t, n):
         t = (t * z.sample_rate).to_value(u.one)
 
         # Snap to the sample grid if within rounding error of a whole sample
-        if np.isfinite(t) and (
-            abs(t - round(t)) <= max(tol, 8 * np.finfo(float).eps * abs(t))
-        ):
+        # (the rounding of a duration computed from others of the size of the
+        # signal, e.g. time_length - n * dt, grows with the signal, not with t)
+        rounding = 8 * np.finfo(float).eps * max(abs(t), len(z))
+        if np.isfinite(t) and abs(t - round(t)) <= max(tol, rounding):
             t = round(t)
 
     if isinstance(t, np.integer):
